@@ -31,6 +31,7 @@ def worker_main(args):
                    budget_s=args.budget)
     import faulthandler
     faulthandler.enable()
+    ctx.out_path = args.out
     try:
         chk.run(ctx)
     except BaseException:  # a crash of the harness itself is never a verdict
@@ -127,6 +128,12 @@ def parent_main(args):
         else:
             tail = open(log.name).read()[-800:]
             shard_fail.append({"shard": i, "rc": rc, "log_tail": tail})
+            if os.path.exists(out + ".partial"):
+                # what the shard had observed before it got stuck / died
+                try:
+                    results.append(json.load(open(out + ".partial")))
+                except ValueError:
+                    pass
     shutil.rmtree(tmp, ignore_errors=True)
 
     # ---- merge ---------------------------------------------------------------------
